@@ -414,7 +414,10 @@ def model_requests_obs(case, obs):
   kind = case['kind']
   if kind == 'strict':
     if case['variant'] in ('chained2', 'chained3') or case.get('oneshot'):
-      return []
+      ns_ = {'chained2': 2, 'chained3': 3}.get(case['variant'], 1)
+      shifts = [0, 100, 300][:ns_]
+      return [dict(model='sched', op='merge_multi', stages=ns_, strict=case['strict'],
+                   states=[[10 + i + sh for sh in shifts] for i in range(case['states'])])]
     return [dict(model='sched', op='merge', states=[10 + i for i in range(case['states'])], strict=case['strict'])]
   if kind == 'sharded':
     nb = obs['nb']
@@ -429,10 +432,15 @@ def model_obs(case, resps):
   if not resps:
     return None
   r = resps[0]
+  if case['kind'] == 'strict' and ('totals' in r or 'err' in r):
+    if 'err' in r:
+      return dict(kind='strict', outcome='ValueError', total=None, totals=None)
+    tot = r['totals'] if case['states'] else [0] * len(r['totals'])
+    return dict(kind='strict', outcome='returned', total=tot[0], totals=tot)
   if case['kind'] == 'strict':
     v = r[case['variant']]
     return dict(kind='strict', outcome='ValueError' if isinstance(v, dict) else 'returned',
-                total=None if isinstance(v, dict) else v)
+                total=None if isinstance(v, dict) else v, totals=None)
   return dict(kind='sharded', terminals=r['terminals'], stuck=r['stuck'])
 
 
@@ -442,6 +450,8 @@ def compare(obs, mobs):
   if mobs['kind'] == 'strict':
     a = (obs['outcome'], obs['total'])
     b = (mobs['outcome'], mobs['total'])
+    if mobs.get('totals') is not None and obs.get('totals') != mobs['totals']:
+      return f"impl per-stage totals {obs.get('totals')} model {mobs['totals']}"
     return None if a == b else f'impl {a} model {b}'
   # sharded, fault-free: the model has exactly one terminal observation whatever the schedule (theorem C16_sharded)
   ts = mobs['terminals']
